@@ -1,13 +1,17 @@
-import Dashu.Proofs.Mem.Repr
+import Dashu.Proofs.Mem.Static
+import Dashu.Model.Mem.Pool
 /-
   C17 — the pool invariant and its preservation by every operation, then by every history.
 -/
 namespace Dashu.Model.Mem
 
+theorem Slot.own_rep (r : Rep) : (Slot.rep r).own = r.own := by cases r <;> rfl
+
 def Slot.Wf (mx : Nat) : Slot → Prop
   | .empty => True
   | .buf b => b.Wf mx
   | .rep r => r.Canon mx
+  | .stat ws _ => StaticWf ws
 
 /-- the pool/ledger invariant:
     `wf`   every buffer has `len ≤ cap`, `0 < cap ≤ MAX_CAPACITY`; every `Repr` is canonical;
@@ -27,6 +31,8 @@ theorem Inv.empty (mx : Nat) : Inv mx Pool.empty Ledger.empty where
   cov := by intro id c h; cases h
 
 variable {L : Ledger} {n mx : Nat} {P : Pool}
+
+theorem Sat.illTyped {α : Type} {Q : α → Ledger → Nat → Prop} : Sat L n (illTyped : M α) Q := Sat.fault_panic
 
 @[simp] theorem Pool.set_same (P : Pool) (k : Nat) (s : Slot) : (P.set k s) k = s := by simp [Pool.set]
 theorem Pool.set_other (P : Pool) {k j : Nat} (s : Slot) (h : j ≠ k) : (P.set k s) j = P j := by
@@ -182,6 +188,10 @@ theorem view_srcOk {j : Nat} {src : Option Nat} {ws : List Nat} (hI : Inv mx P L
     injection hv with hv; injection hv with h1 h2
     subst h1 h2; injection hs with hs; subst hs
     exact ⟨b.cap, hI.live j b.id b.cap (by rw [hp]; rfl), hwf.1⟩
+  | stat ws' neg =>
+    rw [hp] at hv; simp only [Slot.view] at hv
+    injection hv with hv; injection hv with h1 h2
+    subst h1; cases hs
   | rep r =>
     cases r with
     | inline lo hi code neg =>
@@ -218,6 +228,10 @@ theorem drop_sat {W : Nat} (hI : Inv mx P L) (k : Nat) :
     intro _ L' n' _ hm
     apply Sat.pure
     exact ⟨hI.update hB (by rw [he, Slot.own_rep]; exact hm) trivial, Pool.set_same _ _ _,
+      fun j hj => Pool.set_other _ _ hj⟩
+  · rename_i ws neg he
+    apply Sat.pure
+    exact ⟨hI.update hB (by rw [he]; exact Moves.refl_none) trivial, Pool.set_same _ _ _,
       fun j hj => Pool.set_other _ _ hj⟩
 
 /-- (a)+(b): one operation keeps the invariant, emits only safe events, never reaches UB -/
@@ -262,6 +276,11 @@ theorem step_sat {W : Nat} (hW : 0 < W) (hI : Inv mx P L) (op : Op) (hok : op.Ok
         apply create_sat hI
         apply repSlot_sat
         exact Sat.conseq (repClone_sat hw hl) (fun _ _ _ _ hq => ⟨hq.1, hq.2.1⟩)
+      · rename_i ws neg hp
+        have hw : StaticWf ws := by have := hI.wf j; rw [hp] at this; exact this
+        apply create_sat hI
+        apply repSlot_sat
+        exact Sat.conseq (cloneStatic_sat hw) (fun _ _ _ _ hq => ⟨hq.1, hq.2.1⟩)
       · exact Sat.illTyped
   | ensureCapacity k c =>
     exact onBuf_sat hI fun b _ hl hw => bufSlot_sat (ensureCapacity_sat hl hw).bpost
@@ -404,6 +423,12 @@ theorem step_sat {W : Nat} (hW : 0 < W) (hI : Inv mx P L) (op : Op) (hok : op.Ok
           exact hkj this
         apply repSlot_sat
         exact Sat.conseq (repCloneFrom_sat hc hcs hl hls hne) (fun _ _ _ _ hq => ⟨hq.1, hq.2.1⟩)
+      · rename_i ws neg hp
+        have hw : StaticWf ws := by have := hI.wf j; rw [hp] at this; exact this
+        apply onRep_sat hI
+        intro r hr hl hc
+        apply repSlot_sat
+        exact Sat.conseq (cloneFromStatic_sat hc hl hw) (fun _ _ _ _ hq => ⟨hq.1, hq.2.1⟩)
       · exact Sat.illTyped
   | withSign k s =>
     apply onRep_sat hI
@@ -424,18 +449,98 @@ theorem step_sat {W : Nat} (hW : 0 < W) (hI : Inv mx P L) (op : Op) (hok : op.Ok
     | none => exact Moves.refl_none
     | some p => exact Moves.refl (hl p.1 p.2 ho)
   | asSlice k =>
+    simp only [step, Op.target]
+    split
+    · exact Sat.pure ⟨hI, fun _ _ => rfl⟩
+    · apply onRep_sat hI
+      intro r _ hl hc
+      apply Sat.bind
+      apply Sat.conseq (asSlice_sat hc hl)
+      intro _ L' n' _ ⟨hL', _⟩
+      subst L'
+      apply Sat.pure
+      refine ⟨?_, hc⟩
+      rw [Slot.own_rep]
+      cases ho : r.own with
+      | none => exact Moves.refl_none
+      | some p => exact Moves.refl (hl p.1 p.2 ho)
+  | fromStaticWords k ws neg =>
+    apply create_sat hI
+    apply Sat.bind
+    apply Sat.conseq (fromStaticWords_sat (mx := mx) ws)
+    intro o L' n' _ ⟨hL', _, ho⟩
+    subst L'
+    cases o with
+    | value r =>
+      obtain ⟨hc, hown, _, _⟩ := ho
+      apply Sat.pure
+      refine ⟨?_, Rep.canon_withSign hc neg⟩
+      rw [Slot.own_rep, Rep.own_withSign, hown]; exact Moves.refl_none
+    | stat ws' =>
+      apply Sat.pure
+      exact ⟨Moves.refl_none, ho.2⟩
+  | bufFromView k j =>
+    simp only [step, Op.target]
+    apply Sat.ite
+    · intro _; exact Sat.illTyped
+    · intro hkj
+      split
+      · rename_i src ws hv
+        exact create_sat hI (bufSlot_sat (fromSlice_sat (view_srcOk hI hv)).cpost)
+      · exact Sat.illTyped
+  | pushTailFrom k j lo =>
+    simp only [step, Op.target]
+    apply Sat.ite
+    · intro _; exact Sat.illTyped
+    · intro hkj
+      split
+      · rename_i src ws hv
+        apply Sat.ite
+        · intro hlo
+          have hs : SrcOk L src (ws.drop lo).length := by
+            intro s hs
+            obtain ⟨c, hc, hle⟩ := view_srcOk hI hv s hs
+            exact ⟨c, hc, by simp only [List.length_drop]; omega⟩
+          exact onBuf_sat hI fun b _ hl hw => bufSlot_sat (pushSlice_sat hl hw hs).bpost
+        · intro _
+          exact onBuf_sat hI fun b _ hl hw => Sat.assertFail
+      · exact Sat.illTyped
+  | overwrite k ws =>
+    apply onBuf_sat hI
+    intro b _ hl hw
+    apply Sat.ite
+    · intro hlen
+      apply Sat.bind
+      apply Sat.emits (L1 := L) (replay_wr hl _ _ (by have := hw.1; omega)) (isAlloc_wr _ _ _)
+      apply Sat.pure
+      refine ⟨Moves.refl hl, ?_⟩
+      show ws.length ≤ b.cap ∧ _
+      have := hw.1; unfold Buf.len at this hlen
+      exact ⟨by omega, hw.2.1, hw.2.2⟩
+    · intro _; exact Sat.illTyped
+  | intoSignTyped k =>
     apply onRep_sat hI
     intro r _ hl hc
     apply Sat.bind
-    apply Sat.conseq (asSlice_sat hc hl)
-    intro _ L' n' _ ⟨hL', _⟩
+    apply Sat.conseq (intoSignTyped_sat hc hl)
+    intro o L' n' _ ⟨hL', _, hown, ht⟩
     subst L'
-    apply Sat.pure
-    refine ⟨?_, hc⟩
-    rw [Slot.own_rep]
-    cases ho : r.own with
-    | none => exact Moves.refl_none
-    | some p => exact Moves.refl (hl p.1 p.2 ho)
+    cases hto : o.2 with
+    | small lo hi =>
+      rw [hto] at hown
+      apply Sat.pure
+      refine ⟨?_, Rep.canon_fromDword (mx := mx) lo hi⟩
+      simp only [Rep.Typed.own] at hown
+      rw [← hown]
+      unfold Rep.fromDword; exact Moves.refl_none
+    | large b =>
+      rw [hto] at hown ht
+      apply Sat.pure
+      simp only [Rep.Typed.own] at hown
+      refine ⟨?_, ht.1⟩
+      show Moves L L n r.own b.own
+      rw [← hown]
+      exact Moves.refl (hl b.id b.cap hown.symm)
   | drop k =>
     exact Sat.conseq (drop_sat hI k) (fun _ _ _ _ hq => ⟨hq.1, hq.2.2⟩)
 
@@ -522,6 +627,7 @@ theorem drop_ok (W mx : Nat) (P : Pool) (k n : Nat) : ∃ P', (step W mx P (.dro
     cases r with
     | inline lo hi code neg => exact ⟨P.set k .empty, rfl⟩
     | heap id cap ws neg => exact ⟨P.set k .empty, rfl⟩
+  | stat ws neg => exact ⟨P.set k .empty, rfl⟩
 
 theorem dropList_ok (W mx : Nat) (ks : List Nat) :
     ∀ (P : Pool) (n : Nat), ∃ P', (run W mx (ks.map Op.drop) P n).res = .ok P' := by
@@ -544,5 +650,74 @@ theorem run_append_drop_ok (W mx : Nat) (ops : List Op) (ks : List Nat) (P : Poo
   rw [run_append]
   show (M.bind (run W mx ops P) (fun P' => run W mx (ks.map Op.drop) P') n).res = _
   rw [M.bind_ok h]; exact h2
+
+-- ------------------------------------------------------------------ static-backed registers are read-only
+
+theorem illTyped_res {α : Type} (n : Nat) (a : α) : ((illTyped : M α) n).res ≠ .ok a := by
+  intro h; cases h
+
+theorem create_stat {P : Pool} {k : Nat} {ws : List Nat} {neg : Bool} (h : P k = .stat ws neg)
+    (m : M Slot) (n : Nat) (P' : Pool) : (create P k m n).res ≠ .ok P' := by
+  unfold create; rw [h]; exact illTyped_res n P'
+
+theorem onBuf_stat {P : Pool} {k : Nat} {ws : List Nat} {neg : Bool} (h : P k = .stat ws neg)
+    (f : Buf → M Slot) (n : Nat) (P' : Pool) : (onBuf P k f n).res ≠ .ok P' := by
+  unfold onBuf; rw [h]; exact illTyped_res n P'
+
+theorem onRep_stat {P : Pool} {k : Nat} {ws : List Nat} {neg : Bool} (h : P k = .stat ws neg)
+    (f : Rep → M Slot) (n : Nat) (P' : Pool) : (onRep P k f n).res ≠ .ok P' := by
+  unfold onRep; rw [h]; exact illTyped_res n P'
+
+/-- a register holding a `&'static` value cannot be the target of any operation except reading its
+    words (`as_sign_slice`) and forgetting the reference (`drop`): everything else is not expressible
+    (the model has no arm for it) -/
+theorem stat_target_readonly {W mx : Nat} {P P' : Pool} {k : Nat} {ws : List Nat} {neg : Bool}
+    (h : P k = .stat ws neg) (op : Op) (ht : op.target = k) (n : Nat)
+    (hr : (step W mx P op n).res = .ok P') : P' = P ∨ op = .drop k := by
+  cases op <;> simp only [Op.target] at ht <;> subst ht <;> simp only [step] at hr
+  all_goals first
+    | exact absurd hr (create_stat h _ _ _)
+    | exact absurd hr (onBuf_stat h _ _ _)
+    | exact absurd hr (onRep_stat h _ _ _)
+    | skip
+  case drop => exact Or.inr rfl
+  case asSlice =>
+    rw [h] at hr
+    left
+    have : (Except.ok P : Except Fault Pool) = .ok P' := hr
+    injection this with this; exact this.symm
+  case bufClone k j | bufCloneFrom k j =>
+    exfalso
+    split at hr
+    · exact illTyped_res _ _ hr
+    · cases hpj : P j <;> rw [hpj] at hr <;>
+        first | exact illTyped_res _ _ hr | exact create_stat h _ _ _ hr | exact onBuf_stat h _ _ _ hr
+  case repClone k j | repCloneFrom k j =>
+    exfalso
+    split at hr
+    · exact illTyped_res _ _ hr
+    · cases hpj : P j <;> rw [hpj] at hr <;>
+        first | exact illTyped_res _ _ hr | exact create_stat h _ _ _ hr | exact onRep_stat h _ _ _ hr
+  case pushSliceFrom k j | cloneFromSliceFrom k j | bufFromView k j =>
+    exfalso
+    split at hr
+    · exact illTyped_res _ _ hr
+    · cases hpj : (P j).view with
+      | none => rw [hpj] at hr; exact illTyped_res _ _ hr
+      | some p =>
+        obtain ⟨src, ws'⟩ := p
+        rw [hpj] at hr
+        first | exact create_stat h _ _ _ hr | exact onBuf_stat h _ _ _ hr
+  case pushTailFrom k j lo =>
+    exfalso
+    split at hr
+    · exact illTyped_res _ _ hr
+    · cases hpj : (P j).view with
+      | none => rw [hpj] at hr; exact illTyped_res _ _ hr
+      | some p =>
+        obtain ⟨src, ws'⟩ := p
+        rw [hpj] at hr
+        simp only at hr
+        split at hr <;> exact onBuf_stat h _ _ _ hr
 
 end Dashu.Model.Mem
